@@ -363,6 +363,29 @@ class Ctx:
         shutil.rmtree(d, ignore_errors=True)
         return r, out
 
+    def simulate_actions(self, module, cfg, num, depth, label=None,
+                         timeout=900):
+        """tlc -simulate file=...: returns, per behaviour, the list of action
+        names taken, e.g. [("M0", ""), ("S0", "s1"), ...]."""
+        d = os.path.join(self.work, "sima%d" % (self._tlc_n + 1))
+        shutil.rmtree(d, ignore_errors=True)
+        os.makedirs(d)
+        r = self.tlc(module, cfg, workers=1,
+                     simulate="file=%s/tr,num=%d" % (d, num), depth=depth,
+                     extra=["-seed", str(self.seed)], label=label,
+                     timeout=timeout)
+        out = []
+        for fn in sorted(os.listdir(d)):
+            acts = []
+            with open(os.path.join(d, fn)) as f:
+                for line in f:
+                    m = re.match(r'\\\* <(\w+)(?:\("?([^")]*)"?\))? line', line)
+                    if m and m.group(1) != "Init":
+                        acts.append((m.group(1), m.group(2) or ""))
+            out.append(acts)
+        shutil.rmtree(d, ignore_errors=True)
+        return r, out
+
     # -- trace batches -------------------------------------------------------
     def validate_traces(self, module, cfg, traces, meta=None, label=None,
                         env=None, timeout=1800, chunk=4000):
